@@ -229,7 +229,7 @@ std::uint64_t gTrackedMoves = 0;
 // =============================================================================================== counters
 namespace {
 
-constexpr int kMaxCounters = 256;
+constexpr int kMaxCounters = 2048;
 struct Counters {
   char names[kMaxCounters][48];
   std::uint64_t total[kMaxCounters];    // summed over runs
@@ -253,6 +253,18 @@ int CounterId(const char* name) {
   }
   std::snprintf(gCounters.names[gCounters.n], sizeof gCounters.names[0], "%s", name);
   return gCounters.n++;
+}
+void CountDyn(const char* name) {
+  static std::unordered_map<std::string, int>* map = nullptr;
+  Untracked u;
+  if (map == nullptr) {
+    map = new std::unordered_map<std::string, int>;
+  }
+  auto it = map->find(name);
+  if (it == map->end()) {
+    it = map->emplace(name, CounterId(name)).first;
+  }
+  gCounters.cur[it->second] += 1;
 }
 void CounterAdd(int id, std::uint64_t n) noexcept {
   gCounters.cur[id] += n;
@@ -646,6 +658,10 @@ void Yield() noexcept {
 void SleepNs(std::uint64_t ns) {
   auto* s = yaclib::fault::Scheduler::GetScheduler();
   s->Sleep(s->GetTimeNs() + ns);
+}
+static std::string gProfile;
+const char* Profile() noexcept {
+  return gProfile.c_str();
 }
 bool RaceBuild() noexcept {
   return SIM_RACE != 0;
@@ -1168,7 +1184,8 @@ int RunsFor(const std::string& cls) {
 
 // violation class used for "same violation" comparisons: strip volatile detail after the second ':' for sanitizer reports
 std::string ClassKey(const std::string& c) {
-  return c;
+  // every way of dying counts as the same class while shrinking (the manifestation of memory corruption varies)
+  return c.rfind("CRASH", 0) == 0 ? std::string("CRASH") : c;
 }
 
 // ------------------------------------------------------------------------------------------- argument parsing
@@ -1527,6 +1544,7 @@ int One(const Args& a) {
   j.Obj();
   j.KV("property", gInfo->property);
   j.KV("harness", gInfo->name);
+  j.KV("profile", gProfile);
   AppendResultJson(j, *shared, true);
   // the class decided by the parent (covers crashes) overrides what the child managed to write
   j.KV("verdict", cls);
@@ -1715,6 +1733,7 @@ int Minimize(const Args& a) {
   j.Obj();
   j.KV("property", gInfo->property);
   j.KV("harness", gInfo->name);
+  j.KV("profile", gProfile);
   AppendResultJson(j, *m.shared, true);
   j.KV("verdict", got);
   if (!describe.empty()) {
@@ -1731,7 +1750,7 @@ int Minimize(const Args& a) {
   std::fclose(f);
   std::printf("MINIMIZE {\"ok\":%s,\"tape\":[%zu,%zu],\"choices\":[%zu,%zu],\"attempts\":%d}\n", got == cls ? "true" : "false", tape0,
               m.tape.size(), ch0, m.choices.size(), m.attempts);
-  return got == cls ? 0 : 3;
+  return ClassKey(got) == ClassKey(cls) ? 0 : 3;
 }
 
 int CountDistinct(const Args& a) {
@@ -1778,6 +1797,7 @@ int Main(int argc, char** argv, const HarnessInfo& info) {
   yaclib::SetFaultSleepTime(64);
   const std::string mode = argv[1];
   const Args a = ParseArgs(argc, argv, 2);
+  gProfile = a.Get("profile", "");
   if (mode == "explore") {
     return Explore(a);
   }
